@@ -77,20 +77,20 @@ func cas(ok bool) bool {
 }
 
 // function-style API
-func AddInt32(p *int32, d int32) int32     { y(); return atomic.AddInt32(p, d) }
-func AddInt64(p *int64, d int64) int64     { y(); return atomic.AddInt64(p, d) }
-func AddUint32(p *uint32, d uint32) uint32 { y(); return atomic.AddUint32(p, d) }
-func AddUint64(p *uint64, d uint64) uint64 { y(); return atomic.AddUint64(p, d) }
-func LoadInt32(p *int32) int32             { y(); return atomic.LoadInt32(p) }
-func LoadInt64(p *int64) int64             { y(); return atomic.LoadInt64(p) }
-func LoadUint32(p *uint32) uint32          { y(); return atomic.LoadUint32(p) }
-func LoadUint64(p *uint64) uint64          { y(); return atomic.LoadUint64(p) }
-func StoreInt32(p *int32, v int32)         { y(); atomic.StoreInt32(p, v) }
-func StoreInt64(p *int64, v int64)         { y(); atomic.StoreInt64(p, v) }
-func StoreUint32(p *uint32, v uint32)      { y(); atomic.StoreUint32(p, v) }
-func StoreUint64(p *uint64, v uint64)      { y(); atomic.StoreUint64(p, v) }
-func SwapInt32(p *int32, v int32) int32    { y(); return atomic.SwapInt32(p, v) }
-func SwapInt64(p *int64, v int64) int64    { y(); return atomic.SwapInt64(p, v) }
+func AddInt32(p *int32, d int32) int32      { y(); return atomic.AddInt32(p, d) }
+func AddInt64(p *int64, d int64) int64      { y(); return atomic.AddInt64(p, d) }
+func AddUint32(p *uint32, d uint32) uint32  { y(); return atomic.AddUint32(p, d) }
+func AddUint64(p *uint64, d uint64) uint64  { y(); return atomic.AddUint64(p, d) }
+func LoadInt32(p *int32) int32              { y(); return atomic.LoadInt32(p) }
+func LoadInt64(p *int64) int64              { y(); return atomic.LoadInt64(p) }
+func LoadUint32(p *uint32) uint32           { y(); return atomic.LoadUint32(p) }
+func LoadUint64(p *uint64) uint64           { y(); return atomic.LoadUint64(p) }
+func StoreInt32(p *int32, v int32)          { y(); atomic.StoreInt32(p, v) }
+func StoreInt64(p *int64, v int64)          { y(); atomic.StoreInt64(p, v) }
+func StoreUint32(p *uint32, v uint32)       { y(); atomic.StoreUint32(p, v) }
+func StoreUint64(p *uint64, v uint64)       { y(); atomic.StoreUint64(p, v) }
+func SwapInt32(p *int32, v int32) int32     { y(); return atomic.SwapInt32(p, v) }
+func SwapInt64(p *int64, v int64) int64     { y(); return atomic.SwapInt64(p, v) }
 func SwapUint32(p *uint32, v uint32) uint32 { y(); return atomic.SwapUint32(p, v) }
 func SwapUint64(p *uint64, v uint64) uint64 { y(); return atomic.SwapUint64(p, v) }
 func CompareAndSwapInt32(p *int32, o, n int32) bool {
